@@ -22,9 +22,16 @@ func writerChild(w int) string  { return fmt.Sprintf("cw%d", w) }
 
 func genMulti(c *Case, r *simrt.Rand, tier string) {
 	cfg := genCfg{backings: []string{"mem", "store", "store", "mapll"}, concerns: []int{0, 1, 2}, idle: 0.1, tinyDirty: 0.3}
+	if c.Prop == "C17" {
+		cfg.idle = 0.35 // the idle waker is one more party of the permitted concurrency
+	}
 	c.Opts = genOpts(r, cfg)
 	c.Opts.MaxPreMergerBatches = pick(r, []int{1, 1, 2, 2, 3})
 	c.Policy = genPolicy(r)
+	if (c.Prop == "C17" && r.Chance(0.5)) || (c.Prop != "C17" && r.Chance(0.15)) {
+		// pre-emption also around moss's atomic operations
+		c.Policy.AtomicYield = pick(r, []int{1, 1, 2, 4, 8})
+	}
 	if c.Policy.Sticky > 0.9 {
 		c.Policy.Sticky = 0.9
 	}
